@@ -595,6 +595,14 @@ pub fn run(r: &Report) {
                 }
             }
         }
+        for n in 0..4usize {
+            for first in [0u8, 4, 12, 23, 39, 57, 235] {
+                let mut p = vec![first; n.min(1)];
+                p.extend(std::iter::repeat(7u8).take(n.saturating_sub(1)));
+                let s = crate::oracle::addr::base58check_encode(&p);
+                probe(r, api, s.as_bytes());
+            }
+        }
         for s in ["el1", "lq1", "tlq1", "ex1", "ert1", "tex1", "EL1", "1", "11", "el11", "el1q", "lq1p", "[elements]", "[elements]:", ":0", "0x", "0X0", "-1", "+1", " 1", "4294967296", "SIGHASH_", "cHNldP8=", "cHNldA==", "=", "===="] {
             probe(r, api, s.as_bytes());
         }
